@@ -177,7 +177,7 @@ func (e *Exec) keyLess(a, b Value) *Term {
 	case *Term:
 		return BVUlt(x, b.(*Term))
 	case TimeV:
-		return ILt(x.T, b.(TimeV).T)
+		return BVSlt(x.T, b.(TimeV).T)
 	}
 	panic(abortf("UNSUPPORTED key ordering on %T", a))
 }
